@@ -112,7 +112,7 @@ enum POp {
     Release,
     DropVec(usize),
     Info(usize), DcVec(usize, u8), WSwap(usize, usize, u8), TAssign(usize, usize), SwapB(usize, usize, usize),
-    TSwap(usize, usize, usize), ESwap(usize, usize, usize, usize), Probe(usize), Views(usize),
+    TSwap(usize, usize, usize), ESwap(usize, usize, usize, usize), Probe(usize), Views(usize), LazyDc(usize, usize, u8, u8),
     SetLen(usize, usize, bool), RawRt(usize), RawParts(usize),
 }
 
@@ -153,6 +153,7 @@ fn parse_op(toks: &[&str]) -> Option<POp> {
         ["tswap", v, i, j] => POp::TSwap(num(v)?, num(i)?, num(j)?),
         ["eswap", v, i, w, j] => POp::ESwap(num(v)?, num(i)?, num(w)?, num(j)?),
         ["probe", v] => POp::Probe(num(v)?),
+        ["lazydc", v, i, dp, ty] => POp::LazyDc(num(v)?, num(i)?, num(dp)? as u8, num(ty)? as u8),
         ["views", v] => POp::Views(num(v)?),
         ["setlen", v, k, p] => POp::SetLen(num(v)?, num(k)?, *p == "t"),
         ["rawrt", v] => POp::RawRt(num(v)?),
@@ -224,6 +225,7 @@ fn exec<F: Family>(env: &mut Env<F>, op: &POp) {
             a.as_mut().unwrap().eswap_with(*i, b.as_mut().unwrap().as_mut(), *j);
         }
         POp::Probe(v) => env.with_vec(*v, |d| d.probe()),
+        POp::LazyDc(v, i, dp, ty) => env.with_vec(*v, |d| d.lazy_dc(*i, *dp, *ty, env)),
         POp::Views(v) => env.with_vec(*v, |d| d.views()),
         POp::SetLen(v, k, t) => env.with_vec(*v, |d| d.setlen(*k, *t)),
         POp::RawRt(v) => env.with_vec(*v, |d| d.rawrt()),
@@ -233,6 +235,7 @@ fn exec<F: Family>(env: &mut Env<F>, op: &POp) {
 
 fn run_case<F: Family>(name: &str, lines: &[String], w: &mut dyn Write) {
     reg::reset_case();
+    reloc::reset_live();
     writeln!(w, "C {}", name).unwrap();
     w.flush().unwrap();
     let mut env: Env<F> = Env { vecs: Vec::new(), held: RefCell::new(Vec::new()) };
@@ -268,6 +271,8 @@ fn run_case<F: Family>(name: &str, lines: &[String], w: &mut dyn Write) {
         let r = catch_unwind(AssertUnwindSafe(|| exec::<F>(&mut env, &op)));
         reg::scope_set(false);
         reg::set_fault(-1);
+        reloc::scan_live();
+        reg::scan_heap(F::SIZE);
         let evs = reg::take_events();
         let res = match &r {
             Ok(()) => "ok".to_string(),
